@@ -2,11 +2,13 @@ SPECIFICATION Spec
 CONSTANTS
   ClassLevelPropagate = TRUE
   ParamResolve = FALSE
+  InitRestated = TRUE
   OriginFromSuper = FALSE
   AllowModifyBusy = FALSE
-  Parent <- Chain3
+  Parent <- Chain4
   Mode = "clsq"
-  QSels = {{1,2,3}}
+  QSels = {{1, 3}, {2, 3}, {1, 2}}
+  Vias = {"api", "mof"}
   InstKeys = {}
   WithModify = FALSE
   AllFlags = FALSE
